@@ -23,7 +23,7 @@ func init() {
 		Explain: "Decides with guard/path rules: the broker worker tests wouldOverflow(msg) before every buffer.add(msg) and waits for space when it holds (C16.check-before-add); wouldOverflow returns true on each of the three limit predicates, expressed as canonical comparisons over the buffer counters and the configuration (C16.limits); the dispatcher rejects a message whose size exceeds MaxMessageBytes instead of handing it on (C16.reject); " +
 			"readyToFlush is true on each configured trigger and false when empty, the output channel is enabled exactly under timerFired ∨ readyToFlush, the flush timer is armed after an add when Frequency > 0 and none is pending, and rollOver resets both (C16.flush). " +
 			"NOT covered: the byte-size estimate versus the real wire size (numeric), timing.",
-		Rules: []func(*Ctx){c16CheckBeforeAdd, c16Limits, c16Estimate, c16Reject, c16Flush, c04FormatGate, c01ErrLost, c16ExactSize, c16SizeAfterInterceptors, c16RoomRechecked},
+		Rules: []func(*Ctx){c16CheckBeforeAdd, c16Limits, c16Estimate, c16Reject, c16Flush, c04FormatGate, c01ErrLost, c16ExactSize, c16SizeAfterInterceptors, c16RoomRechecked, c04Accounting, c16EstimateSummands},
 	})
 }
 
